@@ -62,6 +62,8 @@ After the three repairs in /repo (fix: commits ec296ec, 04757e8, 95d3a82), the r
                                                                    facts intOps Modulo |-> "%", 4 theorems no longer check; model follows: 0 disagreements
  R2  objects.go  floorDiv(i, o) -> float64 detour              RED  VIOLATION violation-floordiv-float64-detour.json (big-int scenario); 5 theorems fail;
                                                                    0 disagreements: the exact float64 model (f64RoundPos) agrees with the real float code on all cases
+ H1  harmless rewrites after the repairs: nobj -> rhs and a comment in interpretOps, floorMod's parameters/local renamed,
+     sorted copies with slices.Clone(l)[:len(l):len(l)]                         GREEN (facts unchanged, 45/45, 0 disagreements)
  R3  builtins.go sorted/reversed: clone -> l[:]                RED  VIOLATION violation-sorted-reversed-in-place.json; 4 theorems fail; 0 disagreements
                                                                    (C17 on the same copy: RED through C17_toplevel_partial / facts, no concrete package set found at quick)
 """
